@@ -47,6 +47,16 @@ CLAIMED = {
          "blocks) is argued in DESIGN.md and checked by correspondence of the executable stream models, not proved; ranks "
          "tabulated by the harness; only properties with order-free strategies are compared.",
     technique="Coq proof (permutation/duplication/batching laws) + exhaustive small-scope correspondence on the implementation", ref='5 C05'),
+ 'C18': dict(
+    text="Theorems over the collection-equivalence model: the verdict is true exactly when ontologies are equal and both "
+         "collections have the same hashes with equal merged events (spec), symmetry, reflexivity, equivalence with the "
+         "collision-resolved form, never raises on collisions; refutations for the pre-fix code. Tied to "
+         "EventCollection.is_equivalent_of in both argument orders on generated collections and all single-difference mutants, "
+         "with the expected verdict computed independently from the generator's logical events.",
+    note=TB + "invariance under reordering of events/objects is checked by the oracle on the implementation (permuted mutants), not "
+         "proved; sticky hashes are abstract keys; event types restricted to order-free strategies; instances of one logical event "
+         "share attachment ids.",
+    technique="Coq proof over Gallina model of is_equivalent_of + model/implementation correspondence (vm_compute)", ref='5 C18'),
  'C19': dict(
     text="Theorem over the root-children bookkeeping model for EVERY schedule of 'child received'/'end event processed' "
          "actions (every chunking / reader block size) and every sequence of ontology and event children of any length: "
